@@ -391,7 +391,12 @@ class ValueTransformation(DetectionItemTransformation):
                         # Unlike FieldMappingTransformation (which may add wildcards to values
                         # making round-tripping incorrect), ValueTransformation operates on the
                         # values directly and the new values serve as the serializable original.
-                        r.original_value = r.value.copy()
+                        if r.modifiers:
+                            # ...but only without modifiers: they were applied before the values
+                            # were transformed and would be applied again to the new values.
+                            r.disable_conversion_to_plain()
+                        else:
+                            r.original_value = r.value.copy()
                     detection.detection_items[i] = r
                     self.processing_item_applied(r)
 
